@@ -180,14 +180,20 @@ def firstLt (u : α) : List α → Option Nat
   | [] => none
   | c :: cs => if u < c then some 0 else (firstLt u cs).map (· + 1)
 
-/-- `Exponential.randomise`: first index with `u < cum_i`, else the last index if `isclose(u, cum_last)`, else
-RuntimeError -/
+/-- `np.argmax(cum == c)`: the first index whose entry equals `c` (0 if none, as `argmax` of an all-False array) -/
+def firstEq (c : α) : List α → Nat
+  | [] => 0
+  | x :: xs => if decide (x ≤ c) && decide (c ≤ x) then 0
+               else if xs.any (fun y => decide (y ≤ c) && decide (c ≤ y)) then firstEq c xs + 1 else 0
+
+/-- `Exponential.randomise`: first index with `u < cum_i`; else, if `isclose(u, cum_last)`, the first index whose
+cumulative probability equals the final one (the last candidate of non-zero probability; de1aa46); else RuntimeError -/
 def expSelect (rtol atol : α) (cum : List α) (u : α) : Except DErr Nat :=
   match firstLt u cum with
   | some i => .ok i
   | none =>
     match cum.getLast? with
-    | some c => if isclose rtol atol u c then .ok (cum.length - 1) else .error .runtimeError
+    | some c => if isclose rtol atol u c then .ok (firstEq c cum) else .error .runtimeError
     | none => .error .runtimeError
 
 /-! ### bernoulli_neg_exp and PermuteAndFlip (multi-uniform samplers: functions of a uniform stream) -/
